@@ -32,7 +32,7 @@ def valgrind(binary, op, args, payload, timeout=900):
     try:
         cmd = ["valgrind", "-q", "--error-exitcode=99", "--leak-check=no", "--undef-value-errors=yes", binary, "--oneshot", op] + [str(a) for a in args] + [pf]
         try:
-            p = subprocess.run(cmd, capture_output=True, timeout=timeout)
+            p = subprocess.run(cmd, capture_output=True, timeout=timeout, preexec_fn=core.die_with_parent)
         except subprocess.TimeoutExpired:
             return "inconclusive", "valgrind timed out after %ds" % timeout
         err = p.stderr.decode("utf-8", "replace")
@@ -60,7 +60,7 @@ def miri(op, args, payload, feature="full", timeout=3000, seed=0):
     cmd = ["cargo", "+nightly", "miri", "run", "--offline", "--no-default-features", "--features", feature, "--", "--oneshot", op] + [str(a) for a in args] + [pf]
     try:
         try:
-            p = subprocess.run(cmd, cwd=core.HARNESS, env=env, capture_output=True, timeout=timeout)
+            p = subprocess.run(cmd, cwd=core.HARNESS, env=env, capture_output=True, timeout=timeout, preexec_fn=core.die_with_parent)
         except subprocess.TimeoutExpired:
             return "inconclusive", "miri timed out after %ds" % timeout
         except FileNotFoundError:
